@@ -6,7 +6,7 @@ from ..fsm import atom_of
 TITLE = 'isochronous OUT whole packets'
 FLOOR = 10
 DECIDES = ('(a) FIFO commit requires the delayed packet-complete strobe, discard the delayed packet-invalid strobe, both with the '
-           'endpoint-number and OUT-direction atoms; bytes are written only for this endpoint, under next & valid of the '
+           'endpoint-number and OUT-direction atoms, and the discard does not depend on the FIFO fill state; bytes are written only for this endpoint, under next & valid of the '
            'boundary-processed stream; (b) whole-packet admission: a byte may be refused for lack of space only if the packet '
            'is then dropped as a whole -- i.e. the space test in write_en is a per-packet (registered) decision, or every '
            'refusal sets a flag that keeps write_commit from committing the partial packet; (c) first/last flags travel with '
@@ -34,6 +34,11 @@ def run(ctx):
     d = conj(wd.rhs)
     ctx.ob('C16.discard', 'IsoOut.write_discard', {(EP, True), (OUT, True), ('boundary_detector.invalid_out', True)} <= d, wd.loc,
            'discard needs endpoint match, OUT and the delayed invalid strobe: %s' % sorted(d))
+    extra = sorted(a for a, p in d if 'fifo.' in a)
+    ctx.ob('C16.discard-regardless-of-fill', 'IsoOut.write_discard', not extra, wd.loc,
+           'the bytes of a corrupted packet are already in the FIFO when the invalid strobe arrives, so the discard must not '
+           'depend on the FIFO fill state at that moment (found %s): otherwise the uncommitted bytes stay and are published '
+           'by the next commit' % extra)
     w = conj(we.rhs)
     ctx.ob('C16.write-gate', 'IsoOut.write_en', {(EP, True), (OUT, True), ('boundary_detector.processed_stream.next', True),
                                                    ('boundary_detector.processed_stream.valid', True)} <= w, we.loc,
